@@ -285,11 +285,13 @@ void sched_begin(const RunSpec &spec, const SchedCfg &cfg)
 	g_fault_mask = r_fault.u64() | r_fault.u64();      // each kind enabled with probability 3/4
 	g_deadlock_handler = NULL;
 	dec_map.clear(); flt_map.clear(); pct_points.clear();
+	if (spec.replay || spec.explicit_faults) {
+		for (size_t n = 0; n < spec.faults.size(); n++)
+			flt_map[fkey(spec.faults[n].task, spec.faults[n].kind, spec.faults[n].idx)] = spec.faults[n].arg;
+	}
 	if (spec.replay) {
 		for (size_t n = 0; n < spec.decisions.size(); n++)
 			dec_map[dkey(spec.decisions[n].task, spec.decisions[n].idx)] = spec.decisions[n].to;
-		for (size_t n = 0; n < spec.faults.size(); n++)
-			flt_map[fkey(spec.faults[n].task, spec.faults[n].kind, spec.faults[n].idx)] = spec.faults[n].arg;
 	} else if (cfg.strategy == ST_PCT) {
 		for (int k = 0; k < cfg.pct_d; k++) pct_points.push_back(r_sched.below(cfg.expect_steps) + 1);
 	}
@@ -500,11 +502,12 @@ bool fault_here(int kind, uint32_t num, int64_t *arg_out, int64_t arg_range)
 	Task *t = tl_task;
 	if (!t || !g_active || kind < 0 || kind >= MAX_FKINDS) return false;
 	uint64_t idx = t->fcount[kind]++;
-	if (g_spec->replay) {
+	if (g_spec->replay || g_spec->explicit_faults) {
 		if (flt_map.empty()) return false;
 		std::unordered_map<uint64_t, int64_t>::iterator it = flt_map.find(fkey(t->id, kind, idx));
 		if (it == flt_map.end()) return false;
 		if (arg_out) *arg_out = arg_range > 0 ? (int64_t)((uint64_t)it->second % (uint64_t)arg_range) : it->second;
+		if (!g_spec->replay) rec_fault(t->id, kind, idx, it->second);     // an enumerated fault: record it so the replay file carries it
 		if (g_fault_counter) g_fault_counter(kind);
 		return true;
 	}
